@@ -94,7 +94,10 @@ func exprPool(class string) []string {
 		return []string{"0..9223372036854775807", "len(-5000000000000000000..5000000000000000000)", "9223372036854775807 + 1",
 			"-9223372036854775808 / -1", "9223372036854775807 % -1", "1 / 0", "1 % 0", "I / 0", "2 ** 100000", "1..0", "0..2000000",
 			"I..9223372036854775807", "Xs[9223372036854775807]", "S[-1:]", "Xs[:-9223372036854775808]", "1e999", "99999999999999999999",
-			"0x7fffffffffffffff + 0x7fffffffffffffff", "\"a\" matches \"(\"", "S matches \"[\""}
+			"0x7fffffffffffffff + 0x7fffffffffffffff", "\"a\" matches \"(\"", "S matches \"[\"",
+			// patterns that become a literal only when the optimizer folds them: invalid ones fail at run time, never panic
+			"S matches (\"(\" + \"a\")", "\"ab\" matches \"[a-\" + \"z\"", "S matches (\"(?=\" + \"a)\")", "S matches (\"^a\" + \"b\")",
+			"all(Ss, {# matches (\"(\" + \"a\")})"}
 	case "widetext": // several lines, multi-byte runes before the place an error is reported at
 		return []string{"S == \"こんにちは世界、こんにちは世界\" ||\nXs[10] > 0", "\"日本語日本語日本語\" +\n1", "\"\U0001F600\U0001F600\U0001F600\" == S ||\n\nBoom(1) > 0",
 			"[\"ééééééééé\",\n Zq]", "\"世界世界世界世界\"\n  @", "S == \"é\" ? 1 :\n\t(\"世界\" + 1)"}
